@@ -67,7 +67,7 @@ PROPS = {
     'C01': dict(quick=['core'], thorough=['core'],
                 claim='StarkProof::verify is proved to return Ok only if the predicate `accepted` holds: config_ok (C11, integer reading, blow-up >= 2, FRI input = evaluation domain), public input valid, every challenge equal to its Fiat-Shamir spec value, OODS vector of exactly MASK_SIZE+DEGREE values with composition-from-trace == claimed composition AT THE POSITIONS THE DEEP EVALUATION READS, all three table decommitments against the committed roots, FRI input values = DEEP combination of the DECOMMITTED cells with the SAME oods vector, every inner FRI layer decommitted against its root, last layer of 2^bound coefficients agreeing at every query. Generic in the layout through trait-level contracts.',
                 technique='chain of contracts verify -> validate, StarkDomains::new, get_hash, stark_commit -> (traces_commit, table_commit, verify_oods, fri_commit, pow commit), generate_queries, stark_verify -> (traces_decommit, table_decommit, queries_to_points, eval_oods_boundary_poly_at_points, fri_verify -> layers)',
-                note='Not decided: that `accepted` implies existence of a satisfying trace except with negligible probability (DEEP-ALI/FRI soundness, random-oracle Fiat-Shamir). Layout impls are checked against the trait contracts in the layout units (see evidence for which layouts).'),
+                note='Not decided: that `accepted` implies existence of a satisfying trace except with negligible probability (DEEP-ALI/FRI soundness, random-oracle Fiat-Shamir). Layout impls are checked against the trait contracts in the layout units: trace commit / decommit, DEEP wrapper and column counts for all 7 layouts; for the 6 static layouts also the eval_composition_polynomial wrapper, where EVERY global value handed to the autogenerated constraint evaluator is proved equal to the one its field name denotes (oracle gv_spec built by field name: initial_<b>_addr = begin of segment <B>, interaction elements, curve constants, periodic-column points, the two C15 boundary values); the DEEP evaluators bind out-of-domain value i to coefficient i (autogen units). Not under contract: the dynamic layout\'s eval_composition_polynomial wrapper, its two autogenerated evaluators and check_asserts.'),
     'C02': dict(quick=['core'], thorough=['core'],
                 claim='Tamper-evidence is reduced to machine-checked exact characterisations of every check that reads a proof position: configuration numbers (C11 <=>), vector lengths (oods = MASK+DEGREE exactly, cells = columns x queries exactly, last layer = 2^bound exactly, one FRI root and witness per layer at least, one value per query), decommitted cells / authentication nodes / FRI leaves / roots (table and vector decommitment <=> the Merkle walk yields the committed root; inner FRI layers included), commitments, OODS values, coefficients, nonce and public-input fields (the transcript state is proved to be the absorb chain of exactly these messages in protocol order, so every later challenge is a function of them).',
                 technique='the union of the exact (<=>) postconditions and transcript-script postconditions along the verified call chain of StarkProof::verify',
@@ -90,15 +90,15 @@ PROPS = {
                 note='Not decided: rejection of functions of degree >= bound except with probability decaying in the number of queries (FRI soundness theorem).'),
     'C13': dict(quick=['core'], thorough=['core'],
                 claim='PublicInput::get_hash is proved to return poseidon_many of exactly the sequence listed in the statement, in order: [nvf (stone6)] ++ [log_n_steps, rc_min, rc_max, layout] ++ dynamic params ++ flattened segments ++ [padding addr, padding value, n_pages, main page length, pedersen chain of the main page incl. 2*len] ++ flattened (start,size,hash) headers; prod is not bound. The 340 dynamic parameters are proved to be flattened in declaration order (oracle generated from the struct definition on every run). Machine-checked binding lemma, under the idealisation that Poseidon and Pedersen are injective: two public inputs with the same number of segments and dynamic parameters present in both or neither that have EQUAL seeds agree on the head fields, every dynamic parameter, every segment bound, the padding cell, the main-page length and every main-page address and value, the number of continuous pages and every header\'s address, size and hash (both Stone versions are checked on every run).',
-                technique='functional postcondition + loop invariant (pedersen chain) on PublicInput::get_hash; contracts on both From impls of DynamicParams; verified lemma lemma_seed_binds_every_field (templates/air/public_input_binding.rs)',
+                technique='functional postcondition + loop invariant (pedersen chain) on PublicInput::get_hash; contracts on both From impls of DynamicParams; verified lemma lemma_seed_binds_every_field (templates/air/public_input_binding.rs). The Stone 5 / Stone 6 alternative of the code is selected the way cargo selects it: the features each crate receives are resolved from the repository\'s Cargo.toml files on every run (vf/featres.py, unit features = features selected on crates/stark), while the spec side follows the unit\'s declared configuration, so a manifest that forwards the wrong feature fails the postcondition of the stone6 unit',
                 note='The three iterator statements enter through hoisting rules with assumed std semantics. Hash injectivity is an idealisation (opt-in axioms). Not decided: reproduction of the prover\'s first challenges (recorded data).'),
     'C14': dict(quick=['core'], thorough=['core'],
                 claim='For the six static layouts (recursive, dex, small, recursive_with_poseidon, starknet, starknet_with_keccak) validate_public_input is proved to accept EXACTLY the inputs satisfying the memory-layout oracle pi_ok of the layout (step count = trace length/16, segment count, layout code, 0<=rc_min<rc_max<=2^16-1, output usage below 2^128, every builtin usage a whole number of instances not exceeding floor(trace_length/row_ratio), with the per-layout table of segments / cells per instance / row ratios), for every trace length (this holds since fix d0bb0cf; before it three obligations failed). verify_public_input: no panic for any input (since fixes 9ea2566, 7494f86) and the positional facts the code establishes; the address-based reading of the returned hashes demanded by the statement FAILS on the current tree in every layout: recorded as known findings with a concrete witness.',
                 technique='exact (<=>) and per-conjunct postconditions on LayoutTrait::validate_public_input / verify_public_input of each layout, field-division lemma lemma_builtin_checked; per-layout oracles generated from the layout constants (vf/gen_layout_mid.py)',
-                note='The dynamic layout (builtin table given by proof-supplied dynamic parameters, 790 lines) is NOT under contract: a change there is not seen. The iterator chains of verify_public_input enter through hoisting rules (A-iter).'),
+                note='Dynamic layout: validate_public_input is under contract in the direction accept ==> rules (dynamic parameters present, step count x 16 x cpu_component_step = trace length as integers, segment count, layout code, range-check bounds, and per builtin: an unused builtin has an empty segment, a used one has a non-zero row ratio and a whole number of instances not exceeding floor(trace_length/row_ratio)); its body is verified as a free function with the same tokens (the trait-level <=> needs the 3.4 k-line generated check_asserts, which is assumed: a single query beyond the resource limit, probes/dynamic_check_asserts_template.rs). A mutation that makes this function\'s false postcondition hard to refute shows up as UNDECIDED (exit 2), not as a violation. The iterator chains of verify_public_input enter through hoisting rules (A-iter).'),
     'C15': dict(quick=['core'], thorough=['core'],
-                claim='get_diluted_product is proved (i) to compute the log-step doubling recurrence (p,q,x,diff_x) after n_bits-1 steps and to terminate, and (ii) by a machine-checked lemma chain to equal r_(2^n_bits) of the DEFINING recurrence r_1 = 1, r_(j+1) = r_j*(1+z*u_j) + alpha*u_j^2 over all 2^n_bits diluted values (u_j = Dilute(j) - Dilute(j-1), digit weight 2^spacing), for every n_bits in 1..=64, spacing, z, alpha: integer identity for every base (periodicity of u, block composition), then reduction mod P. Page::get_product, get_continuous_pages_product, get_public_memory_product(_ratio) are proved equal to z^size / (product over all public cells of (z - (addr + alpha*value)), page products for continuous pages, times the padding factor to the power size - total).',
-                technique='loop invariants on Page::get_product, get_continuous_pages_product, get_diluted_product; functional postconditions on the memory product functions; verified lemmas lemma_dil_shift, lemma_u_periodic, lemma_block, lemma_diluted_doubling, lemma_state, lemma_diluted_is_recurrence (templates/air/diluted_lemma.rs)',
+                claim='get_diluted_product is proved (i) to compute the log-step doubling recurrence (p,q,x,diff_x) after n_bits-1 steps and to terminate, and (ii) by a machine-checked lemma chain to equal r_(2^n_bits) of the DEFINING recurrence r_1 = 1, r_(j+1) = r_j*(1+z*u_j) + alpha*u_j^2 over all 2^n_bits diluted values (u_j = Dilute(j) - Dilute(j-1), digit weight 2^spacing), for every n_bits in 1..=64, spacing, z, alpha: integer identity for every base (periodicity of u, block composition), then reduction mod P. Page::get_product, get_continuous_pages_product, get_public_memory_product(_ratio) are proved equal to z^size / (product over all public cells of (z - (addr + alpha*value)), page products for continuous pages, times the padding factor to the power size - total). CALL SITES: in the eval_composition_polynomial wrapper of each of the six static layouts the two boundary values handed to the constraint evaluator are proved to be memory_ratio_spec over the layout\'s memory column (trace length / PUBLIC_MEMORY_STEP) at the memory interaction elements, and diluted_spec(16, 4, z, alpha) at the diluted interaction elements (the statement\'s (n_bits, spacing); dex and small have no diluted check).',
+                technique='loop invariants on Page::get_product, get_continuous_pages_product, get_diluted_product; functional postconditions on the memory product functions; verified lemmas lemma_dil_shift, lemma_u_periodic, lemma_block, lemma_diluted_doubling, lemma_state, lemma_diluted_is_recurrence (templates/air/diluted_lemma.rs); labelled assertions at the call sites in the layoutmid units (vf/gen_layout_mid.py)',
                 note='The in-function assert! (total length <= column size) and the two field divisions are C18 obligations of the callers (one known finding). n_bits > 64 is outside the contract (every layout passes the constant 16).'),
     'C08': dict(quick=['core'], thorough=['core'],
                 claim='Every Transcript operation is proved equal to a spec of the absorb/squeeze state machine (squeeze = poseidon(digest,counter), counter+1; absorb = poseidon_many([digest+1]++msg), counter reset); protocol functions are proved to perform exactly the scripted operations in order (so every challenge is a function of the seed and of exactly the messages absorbed before it, and of nothing later). Machine-checked dependence lemmas under the idealisation that Poseidon is injective: a challenge determines digest and counter; challenges drawn without an intervening message are pairwise different; the digest the queries are drawn from determines the seed and EVERY commit-phase message (trace roots, composition root, each out-of-domain value and their number, each FRI root, each last-layer coefficient and their number, the nonce), i.e. changing any one of them changes it.',
@@ -130,8 +130,8 @@ PROPS['C02']['thorough'] = ['core'] + _LIGHT
 PROPS['C01']['quick'] = ['core'] + _LIGHT   # trace commit / decommit / DEEP-call wrappers of every layout on every change (seconds each)
 PROPS['C02']['quick'] = ['core'] + _LIGHT
 PROPS['C16'] = dict(quick=['core', 'autogen_recursive'], thorough=['core', 'autogen_recursive', 'autogen_dex', 'autogen_small', 'autogen_recursive_with_poseidon', 'autogen_starknet', 'autogen_starknet_with_keccak'],
-    claim='For each layout covered, the UNCHANGED bodies of the autogenerated composition and DEEP evaluators type-check with the coefficient vector retyped to an abstract Coeff (usable only as one factor of a product with a field element) and the result retyped to a linear form, and the ghost contract proves every coefficient position 0..N-1 is used exactly once, in order, with no constant part; powers_array is proved to return alpha^i, and stark_commit to pass N_CONSTRAINTS resp. MASK_SIZE+DEGREE of them. Index obligations show the evaluators read exactly mask/oods positions within the checked lengths.',
-    technique='typing + ghost-state contract (lo, hi, count, czero) on eval_composition_polynomial_inner / eval_oods_polynomial_inner extracted with two signature-level rewrites; functional postcondition on powers_array',
+    claim='For each layout covered, the UNCHANGED bodies of the autogenerated composition and DEEP evaluators type-check with the coefficient vector retyped to an abstract Coeff (usable only as one factor of a product with a field element) and the result retyped to a linear form, and the ghost contract proves every coefficient position 0..N-1 is used exactly once, in order, with no constant part; in the composition evaluators every statement `let value = E;` is numbered (rule C16_number_values: `cv(E, K)`) and `Coeff * CVal` requires position == K, so the K-th computed constraint value is weighted by coefficient K and by no other (no constraint value dropped, reused or re-weighted); in the DEEP evaluators coefficient i can only weight the quotient built from out-of-domain value i; powers_array is proved to return alpha^i, and stark_commit to pass N_CONSTRAINTS resp. MASK_SIZE+DEGREE of them. Index obligations show the evaluators read exactly mask/oods positions within the checked lengths.',
+    technique='typing + ghost-state contract (lo, hi, count, czero; CVal / OodsVal / Term position types) on eval_composition_polynomial_inner / eval_oods_polynomial_inner extracted with signature-level rewrites and one statement-level wrapper (identity on the value); functional postcondition on powers_array',
     note='Not decided: that each term is not identically zero (needs a witness evaluation per constraint). Divisions inside the evaluators are assumed non-zero (A-fs-nonzero). Layout coverage: recursive (quick); dex, small, recursive_with_poseidon, starknet (thorough); starknet_with_keccak DEEP evaluator only (thorough, 5 min, 17 GB); the starknet_with_keccak composition evaluator and both dynamic-layout evaluators are NOT under contract (memory; dynamic column indexing), so a change there is not seen.')
 PROPS['C17'] = dict(quick=['core'], thorough=['core'],
     claim='Every loop and recursive function under contract has a machine-checked decreases clause (Verus rejects the unit otherwise) and labelled trip-count bounds tied to validated constants or the length of supplied data: queries <= 48 (config), FRI layers <= 14, coset <= 16, layer loop <= |queries|, Merkle walk consumes a node or two entries per step, Horner = |coefficients|, page product = |main page|, diluted = n_bits-1 <= 63.',
@@ -140,7 +140,7 @@ PROPS['C17'] = dict(quick=['core'], thorough=['core'],
 PROPS['C18'] = dict(quick=['core'], thorough=['core'],
     claim='Every index, slice, unwrap/expect, assert!, panic!, integer overflow and zero-divisor site in the functions under contract is a discharged obligation; StarkProof::verify (generic layout) has no precondition beyond a 64-bit usize and a header count below usize::MAX. Interior functions require only what their callers are proved to establish.',
     technique='implicit panic-freedom obligations generated by Verus for every function under contract, interior preconditions discharged along the verified call chain',
-    note='Division by the evaluation of a domain polynomial at a Fiat-Shamir point inside the autogenerated evaluators is assumed non-zero (A-fs-nonzero). Layout-specific functions: see evidence for coverage and known findings.')
+    note='Division by the evaluation of a domain polynomial at a Fiat-Shamir point inside the autogenerated evaluators is assumed non-zero (A-fs-nonzero). Layout-specific functions: wrappers, validate_public_input and verify_public_input of all 7 layouts (dynamic: validate as a free-function copy, check_asserts assumed not to panic; its divisors are guarded by the preceding power-of-two checks - one of them, 16 * keccak_row_ratio, only semantically), safe_div; see evidence for known findings.')
 
 PROPS['C19'] = dict(quick=['cli'], thorough=['cli'],
     claim='PART of C19, the conversion step only: every `impl TransformTo` of cli/src/transform.rs (24 impls) is proved to carry each field of the parsed proof to the verifier-side field of the same name with the same non-negative integer value, vectors with the same length and order (config numbers, public input, segments, main page cells, commitments, OODS values, FRI roots / coefficients / leaves, decommitted values, authentication nodes); misfit handling (difficulty > 255, nonce >= 2^64 or 0, dynamic-parameter count, continuous page headers) shows up as failed obligations recorded as known findings.',
